@@ -23,7 +23,7 @@
 From Coq Require Import String List ZArith NArith Bool.
 Import ListNotations.
 From Selfies Require Import Base Generated Atoms Grammar Decoder PySet Matching Smiles Kekulize Encoder
-  IndexSpec IndexCode Reader RoundTrip EncoderFacts PureFacts AlphaClosure WriterAtoms EncHyp EncShape EncAtoms EncGood EncDecodes EncStd.
+  IndexSpec IndexCode Reader RoundTrip EncoderFacts PureFacts AlphaClosure WriterAtoms EncHyp EncShape EncAtoms EncGood EncDecodes EncStd EncRows EncSize.
 Local Open Scope string_scope.
 
 Theorem C10_suffix_partial : forall n syms,
@@ -63,6 +63,18 @@ Example C10_decodes_hypotheses_met :
 Proof. cbv zeta. split; [vm_compute; reflexivity|]. split; [right; vm_compute; reflexivity|]. split; vm_compute; reflexivity. Qed.
 
 
+(* the same with hypotheses on sizes only: every ring span is below the number of atoms (at most the number of input
+   characters) and every branch length below the number of output symbols *)
+Theorem C10_encoder_output_decodes_sized_partial : forall T smiles strict attribute s maps attribute',
+  table_ok T ->
+  encoder T smiles strict attribute = Ok (s, maps) ->
+  (forall m0, smiles_to_mol smiles attribute = Ok m0 -> Forall (cap_ok T) (atoms_of m0)) ->
+  (length smiles <= 4096)%nat ->
+  (length (flat_map fst (tokenize_all s false)) <= 4096)%nat ->
+  exists out, decoder T s false attribute' = Ok out.
+Proof. exact encoder_output_decodes_sized. Qed.
+
+
 (* (b) one symbol per atom, one atom per symbol *)
 Theorem C10_symbol_determines_atom : forall a1 a2 t, AtomShape a1 -> IntOK a1 -> AtomShape a2 -> IntOK a2 ->
   atom_to_smiles a1 false = Ok t -> atom_to_smiles a2 false = Ok t -> a1 = a2.
@@ -85,3 +97,4 @@ Print Assumptions C10_encoder_output_decodes_checkable_partial.
 Print Assumptions C10_symbol_determines_atom.
 Print Assumptions C10_printed_symbol_reads_back.
 Print Assumptions C10_standard_spellings.
+Print Assumptions C10_encoder_output_decodes_sized_partial.
